@@ -130,6 +130,9 @@ def case_charfunc(dim, dtype, bw):
     dn = lambda x: np.nextafter(real_t(x), real_t(-np.inf))  # noqa: E731
     alpha = [real_t(-2) * b, dn(-b), -b, up(-b), real_t(-0.5) * b, dn(real_t(0)), real_t(0), up(real_t(0)), real_t(0.5) * b, dn(b), b, up(b), real_t(2) * b]
     alpha += [real_t(-0.9) * b, real_t(-0.25) * b, real_t(0.25) * b, real_t(0.9) * b, real_t(1e-3) * b, real_t(-1e-3) * b]
+    # dense sweep of the blend zone: range / monotonicity can fail anywhere inside it (a wrongly scaled sine term overshoots near
+    # |phi| -> blend width only, and only for blend widths above one)
+    alpha += [real_t(t) * b for t in np.linspace(-1.0, 1.0, 65)]
     alpha = sorted(set(float(a) for a in alpha))
     shape = (1, len(alpha)) if dim == 2 else (1, 1, len(alpha))
     phi = np.array(alpha, dtype=real_t).reshape(shape)
@@ -330,6 +333,8 @@ def case_filter_history(ftype, order, field_type, dtype, poison, depth=3):
     return CaseResult(fails=res.fails, states=res.states, transitions=res.transitions, traces=res.transitions, outcome=f"{tag}:{order}:{res.states}")
 
 
+# blend widths below, at and above one (level sets in lattice units / large domains have blend widths of several units)
+CHARFUNC_BLEND_WIDTHS = (0.1, 1.0 / 3.0, 1.0, 2.0, 3.0, 7.5, 1e-3, 64.0)
 CASES = {"brinkmann": case_brinkmann, "charfunc": case_charfunc, "damping": case_damping, "filter_symbol": case_filter_symbol, "filter_history": case_filter_history}
 
 
@@ -342,7 +347,7 @@ def run(r) -> None:
     br += [dict(variant="lagrangian", dim=d, field_type="scalar", dtype=dt) for d in (2, 3) for dt in dts]
     br += [dict(c, inplace=True) for c in br]  # every variant also with the field penalised in place
     r.run_cases("brinkmann", "brinkmann", br)
-    r.run_cases("characteristic-function", "charfunc", [dict(dim=d, dtype=dt, bw=bw) for d in (2, 3) for dt in dts for bw in (0.1, 1.0 / 3.0)])
+    r.run_cases("characteristic-function", "charfunc", [dict(dim=d, dtype=dt, bw=bw) for d in (2, 3) for dt in dts for bw in CHARFUNC_BLEND_WIDTHS])
     damp = []
     for d in (2, 3):
         for ft in (("scalar",) if d == 2 else ("scalar", "vector")):
